@@ -166,3 +166,11 @@ Lemma single_file_outside_class p c wa wb :
 Proof. intros Hp Hm Ha Hb. destruct (single_file_fp_order_free p c wa wb Hp Hm Ha Hb) as [Hf Hmaps].
   unfold kf_C14_order. replace (fp wb p c) with (fp wa p c); [rewrite tree_eqb_refl; reflexivity|].
   unfold fp, analyse, fp_cfg. rewrite Hf, Hmaps. reflexivity. Qed.
+
+(* ---- C14: the same project reached through another spelling of the project path ---- *)
+Definition mk_file_at (dir : string) : sfile := mk_file (dir ++ "/a.rs") "cmd_a".
+Lemma c14_refuted_path :
+  kf_C14_path w1 [mk_file_at "./src-tauri"] [mk_file_at "src-tauri"] c0 = true /\
+  let st1 := snd (run_c false w1 false None (init_state [mk_file_at "./src-tauri"] c0)) in
+  fst (run_c false w1 false None (step_c false st1 (SetSrcOp [mk_file_at "src-tauri"]))) = Success.
+Proof. vm_compute. split; reflexivity. Qed.
